@@ -345,6 +345,12 @@ pub extern "C" fn SFileCloseArchive(handle: HANDLE) -> bool {
                 .unwrap()
                 .retain(|_, file| file.archive_handle != handle_id);
 
+            // ... and any search handles
+            FIND_HANDLES
+                .lock()
+                .unwrap()
+                .retain(|_, find| find.archive_handle != handle_id);
+
             set_last_error(ERROR_SUCCESS);
             true
         } else {
@@ -2022,6 +2028,17 @@ pub unsafe extern "C" fn SFileFindFirstFile(
 
         find_handle.current_index += 1; // Move to next for SFileFindNextFile
         FIND_HANDLES.lock().unwrap().insert(handle_id, find_handle);
+
+        // SFileCloseArchive removes the archive first and then purges its search handles. If
+        // the archive went away while the list was being built, that purge may already have
+        // run: withdraw the handle instead of returning a search of a closed archive. (The
+        // two tables are never locked together here, SFileFindNextFile takes them in the
+        // opposite order.)
+        if !ARCHIVES.lock().unwrap().contains_key(&archive_id) {
+            FIND_HANDLES.lock().unwrap().remove(&handle_id);
+            set_last_error(ERROR_INVALID_HANDLE);
+            return INVALID_HANDLE_VALUE;
+        }
 
         set_last_error(ERROR_SUCCESS);
         id_to_handle(handle_id)
